@@ -75,6 +75,29 @@ def run(ctx):
     ctx.floor("R1", 12)
 
     # ---- R2 quoting ------------------------------------------------------------------------------------------------
+    gfn = EP.methods["_generate_env_str"]
+    n_interp = 0
+    for js in [n for n in A.walk(gfn.node) if isinstance(n, ast.JoinedStr)]:
+        for fv in js.values:
+            if not isinstance(fv, ast.FormattedValue):
+                continue
+            names = set(A.names_in(fv.value))
+            if not (names & {"val", "value"}) or "key" in names and not (names & {"val", "value"}):
+                continue
+            if isinstance(getattr(js, "_parent", None), ast.Call) and A.unparse(js._parent.func) in ("KeyError", "TypeError"):
+                continue
+            inner_js = [x for x in A.walk(fv.value) if isinstance(x, ast.JoinedStr)]
+            if inner_js:
+                continue  # judged at the inner f-string
+            n_interp += 1
+            quoted = any(A.unparse(c.func) in ("self._quote_env_value", "self._escape_double_quoted") for c in A.calls(fv.value))
+            ctx.check("R2", gfn, quoted, f"value-quoted:{A.unparse(fv.value)[:40]}", f"`{{{A.unparse(fv.value)[:40]}}}` goes through a quoting helper before it becomes shell text",
+                      f"_generate_env_str interpolates `{{{A.unparse(fv.value)[:60]}}}` into shell text without a complete quoting helper: quotes, backslashes, $ or backticks in the value are interpreted by bash", node=fv)
+    ctx.check("R2", gfn, n_interp >= 2, f"value-interpolations:{n_interp}", f"{n_interp} interpolations of environment values into shell text inspected")
+    if "_quote_env_value" not in EP.methods or "_escape_double_quoted" not in EP.methods:
+        ctx.fail("R2", EP, "quoting-helpers-missing", "EbuildProcessor has no _quote_env_value/_escape_double_quoted: values are not quoted by a complete, checkable routine", node=gfn.node)
+        ctx.floor("R2", 2)
+        return _r3r4(ctx, P, EP, dm)
     q = EP.methods["_quote_env_value"]
     v = q.params()[0]
     ifs = [n for n in q.node.body if isinstance(n, ast.If)]
@@ -103,8 +126,11 @@ def run(ctx):
     ctx.check("R2", e, bool(elems) and elems[0] == "\\", f"dq-backslash-first:{elems[:1] if elems else None}", "backslash is escaped first (else the added escapes are doubled)",
               "_escape_double_quoted does not escape backslash first: the backslashes it adds for other characters get doubled", node=loops[0])
     ctx.check("R2", e, A.unparse(loops[0].body[0]) == "val = val.replace(char, '\\\\' + char)", "dq-escape-form", "each special gets one backslash in front")
-    ctx.floor("R2", 7)
+    ctx.floor("R2", 9)
+    _r3r4(ctx, P, EP, dm)
 
+
+def _r3r4(ctx, P, EP, dm):
     # ---- R3 marker / emission --------------------------------------------------------------------------------------------
     g = EP.methods["_generate_env_str"]
     ne = [(t, val) for t, val, _ in A.assignments(g.node) if isinstance(t, ast.Name) and "PKGCORE_NONEXPORTED_VARS" in A.unparse(val)]
